@@ -286,12 +286,12 @@ def check_C02(tier, seed):
 
 def check_C05(tier, seed):
     return codec_family("C05", tier, seed, "split" if tier == "quick" else "chunks",
-                        rule="for every (type, value) of the universe and the restartable binary syntaxes (BER, OER): quick = every 2-chunk split point of the reference encoding (every proper prefix incl. the empty one); thorough = every chunking of encodings up to 6 octets and octet-wise feeding of all; each decoder call is one trace event judged by Codec!DecodeCall")
+                        rule="for every (type, value) of the universe and the restartable binary syntaxes (BER, OER): quick = every 2-chunk split point of the reference encoding (every proper prefix incl. the empty one), of its all-indefinite BER form, and of its XER text; thorough = every chunking of encodings up to 6 octets and octet-wise feeding of all; each decoder call is one trace event judged by Codec!DecodeCall")
 
 
 def check_C03(tier, seed):
     return codec_family("C03", tier, seed, "variants",
-                        rule="for every (type, value) of the universe: the BER variants of spec/Variants.tla (16 styles: padded long-form lengths, indefinite lengths at all / odd / even depths, constructed and nested constructed strings, reversed SET order, DEFAULT values present, TRUE = 01, unknown primitive / constructed extension additions), BASIC-PER/OER defaults-present and unknown-extension forms, XER layouts (LF, CR LF TAB, comments, empty-element tags, defaults present); each is decoded one-shot and must give RC_OK, full length consumed, the value, and the canonical DER re-encoding")
+                        rule="for every (type, value) of the universe: the BER variants of spec/Variants.tla (23 styles: long-form lengths padded by 1 / 4 / 9 octets, indefinite lengths at all / odd / even depths, constructed and nested constructed strings, reversed SET order, DEFAULT values present, TRUE = 01, unknown primitive / constructed extension additions, REAL with an even mantissa / a scaling factor / base 8 / base 16 / a length-prefixed exponent / as ISO 6093 text), BASIC-PER/OER defaults-present and 1 / 63 / 64 / 65 / 130 unknown extension additions, XER layouts (LF, CR LF TAB, comments, empty-element tags, defaults present, numeric character references); each is decoded one-shot and must give RC_OK, full length consumed, the value, and the canonical DER re-encoding")
 
 
 def check_C06(tier, seed):
@@ -346,7 +346,7 @@ def check_C18(tier, seed):
                      leafcap=3 if quick and planset == "mutations" else 0,
                      maxfail=6 if quick else 16, dense=not quick and planset == "mutations")
     return finish(res, tier, seed, "model_checking", t0,
-                  "module VO (spec/Universe.tla): frames SEQUENCE { id CLASS.&id({Set}), val CLASS.&Type({Set}{@id}) } over four object sets; for every frame type, every row and boundary values of the row type: round trip per syntax; decoding of the reference encodings (DER, 16 BER styles, UPER, OER, XER layouts) must select exactly the row paired with the identifier (value equality includes the selected row); every 2-chunk split; identifier replaced by one without a row (must not be accepted) or by another row's (if accepted, the value must be of the type paired with the decoded identifier: Asn1Types!IocConsistent), in DER / padded BER / UPER / OER / XER, then print + free, or reset + decode a valid encoding into the same structure; byte mutations and allocation-failure histories; ASan+UBSan build with the allocation ledger: every crash, sanitizer report or unreleased block is an event no spec action explains; repeated with -fwide-types and -findirect-choice -fcompound-names",
+                  "modules VO, VP, VQ (spec/Universe.tla): frames SEQUENCE { id CLASS.&id({Set}), val CLASS.&Type({Set}{@id}) [OPTIONAL] } over six object sets (1, 3, 4 rows; INTEGER identifiers incl. negative and > 32767, OBJECT IDENTIFIER identifiers; extensible or not); for every frame type, every row and boundary values of the row type: round trip per syntax; decoding of the reference encodings (DER, 16 BER styles, UPER, OER, XER layouts) must select exactly the row paired with the identifier (value equality includes the selected row); every 2-chunk split; identifier replaced by one without a row (must not be accepted) or by another row's (if accepted, the value must be of the type paired with the decoded identifier: Asn1Types!IocConsistent), in DER / padded BER / UPER / OER / XER, then print + free, or reset + decode a valid encoding into the same structure; byte mutations and allocation-failure histories; ASan+UBSan build with the allocation ledger: every crash, sanitizer report or unreleased block is an event no spec action explains; repeated with -fwide-types and -findirect-choice -fcompound-names",
                   ASSUME_CODEC + ["the object-set universe is fixed (4 sets); generated class/object-set modules beyond it are not enumerated"])
 
 
